@@ -13,22 +13,30 @@ Inductive pass : Type :=
 | RemoveUnreferencedVerts  (* vertPos_[v] := NaN for every v that starts no halfedge *)
 | SortGeometry             (* SortVerts drops NaN vertices, SortFaces drops tombstone triangles *)
 | AssumeNoStranded         (* explicit, listed assumption about a generator (not a C++ call) *)
+| AssumeNoDup              (* explicit, listed assumption: the generator emits no duplicate directed edge / pinched vertex *)
 | OtherPass.               (* a call with no effect on the three facts below *)
 
 (* What a pipeline may leave behind.  A "stranded" vertex is a vertex that is
    not NaN and is referenced by no halfedge; a "tombstone" is a removed (-1)
    triangle or a NaN vertex still occupying a slot. *)
-Record cstate : Type := mkC { n_stranded : nat; n_tomb : nat; is_sorted : bool }.
+(* n_dup counts what CleanupTopology repairs: directed edges occurring more than once
+   (4-manifold edges) and pinched vertices. *)
+Record cstate : Type := mkC { n_stranded : nat; n_tomb : nat; is_sorted : bool; n_dup : nat }.
 
 (* The effect of each pass, as a relation (everything the C++ may do to the three counters). *)
 Definition exec (p : pass) (s s' : cstate) : Prop :=
   match p with
-  | CreateHalfedges | Subdivide => is_sorted s' = false           (* may strand, may tombstone *)
+  | CreateHalfedges => is_sorted s' = false                       (* may strand, tombstone, pair duplicates *)
+  | Subdivide => is_sorted s' = false /\ (n_dup s = 0 -> n_dup s' = 0)   (* refining a 2-manifold keeps it one (trusted) *)
   | CleanupTopology | SimplifyTopology =>
-      n_stranded s' = n_stranded s /\ is_sorted s' = false         (* removed verts are NaN-ed by the collapse itself *)
-  | RemoveUnreferencedVerts => n_stranded s' = 0 /\ is_sorted s' = is_sorted s
-  | SortGeometry => n_stranded s' = n_stranded s /\ n_tomb s' = 0 /\ is_sorted s' = true
-  | AssumeNoStranded => n_stranded s' = 0 /\ n_tomb s' = n_tomb s /\ is_sorted s' = is_sorted s
+      (* DedupeEdge moves whole fans to new vertices: with duplicates present the ORIGINAL vertex can be left
+         unreferenced and not NaN (observed by the Impl-level oracle); without duplicates nothing is stranded -
+         a collapse NaN-s the vertex it removes *)
+      n_dup s' = 0 /\ (n_dup s = 0 -> n_stranded s' = n_stranded s) /\ is_sorted s' = false
+  | RemoveUnreferencedVerts => n_stranded s' = 0 /\ is_sorted s' = is_sorted s /\ n_dup s' = n_dup s
+  | SortGeometry => n_stranded s' = n_stranded s /\ n_tomb s' = 0 /\ is_sorted s' = true /\ n_dup s' = n_dup s
+  | AssumeNoStranded => n_stranded s' = 0 /\ n_tomb s' = n_tomb s /\ is_sorted s' = is_sorted s /\ n_dup s' = n_dup s
+  | AssumeNoDup => n_stranded s' = n_stranded s /\ n_tomb s' = n_tomb s /\ is_sorted s' = is_sorted s /\ n_dup s' = 0
   | OtherPass => s' = s
   end.
 
@@ -38,28 +46,30 @@ Fixpoint exec_all (ps : list pass) (s s' : cstate) : Prop :=
   | p :: r => exists m, exec p s m /\ exec_all r m s'
   end.
 
-Definition clean (s : cstate) : Prop := n_stranded s = 0 /\ n_tomb s = 0 /\ is_sorted s = true.
+Definition clean (s : cstate) : Prop := n_stranded s = 0 /\ n_tomb s = 0 /\ is_sorted s = true /\ n_dup s = 0.
 
 (* abstract domain: may-flags *)
-Record flags : Type := mkF { may_stranded : bool; may_tomb : bool; may_unsorted : bool }.
+Record flags : Type := mkF { may_stranded : bool; may_tomb : bool; may_unsorted : bool; may_dup : bool }.
 
 Definition astep (p : pass) (f : flags) : flags :=
   match p with
-  | CreateHalfedges | Subdivide => mkF true true true
-  | CleanupTopology | SimplifyTopology => mkF (may_stranded f) true true
-  | RemoveUnreferencedVerts => mkF false true (may_unsorted f)
-  | SortGeometry => mkF (may_stranded f) false false
-  | AssumeNoStranded => mkF false (may_tomb f) (may_unsorted f)
+  | CreateHalfedges => mkF true true true true
+  | Subdivide => mkF true true true (may_dup f)
+  | CleanupTopology | SimplifyTopology => mkF (may_stranded f || may_dup f) true true false
+  | RemoveUnreferencedVerts => mkF false true (may_unsorted f) (may_dup f)
+  | SortGeometry => mkF (may_stranded f) false false (may_dup f)
+  | AssumeNoStranded => mkF false (may_tomb f) (may_unsorted f) (may_dup f)
+  | AssumeNoDup => mkF (may_stranded f) (may_tomb f) (may_unsorted f) false
   | OtherPass => f
   end.
 
 Definition arun (ps : list pass) (f : flags) : flags := fold_left (fun f p => astep p f) ps f.
 
-Definition no_flag (f : flags) : bool := negb (may_stranded f) && negb (may_tomb f) && negb (may_unsorted f).
+Definition no_flag (f : flags) : bool := negb (may_stranded f) && negb (may_tomb f) && negb (may_unsorted f) && negb (may_dup f).
 
 (* entry: `fresh = true` for pipelines that fill a new Impl (nothing known),
    `false` for pipelines that start from an existing valid Manifold. *)
-Definition entry_flags (fresh : bool) : flags := if fresh then mkF true true true else mkF false false false.
+Definition entry_flags (fresh : bool) : flags := if fresh then mkF true true true true else mkF false false false false.
 
 Definition pipeline_ok (fresh : bool) (ps : list pass) : bool := no_flag (arun ps (entry_flags fresh)).
 
@@ -67,7 +77,8 @@ Definition pipeline_ok (fresh : bool) (ps : list pass) : bool := no_flag (arun p
 Definition described (f : flags) (s : cstate) : Prop :=
   (may_stranded f = false -> n_stranded s = 0) /\
   (may_tomb f = false -> n_tomb s = 0) /\
-  (may_unsorted f = false -> is_sorted s = true).
+  (may_unsorted f = false -> is_sorted s = true) /\
+  (may_dup f = false -> n_dup s = 0).
 
 (* -------- one row of the table tied to arrays: RemoveUnreferencedVerts ---------
    verts: true = NaN (tombstone) ; starts: halfedge start vertices (-1 = removed) *)
